@@ -104,6 +104,10 @@ def classify(expr):
     m = re.fullmatch(r"!(\w+)\.load\(\)\?\.is_stale\(\)\?", e)
     if m:
         return ("venueFresh", m.group(1))
+    # the receiver named by a liquidation record is this signer:  {let req = R.load()?; req.liquidation_receiver == S.key()}
+    m = re.fullmatch(r"\{let(\w+)=(\w+)\.load\(\)\?;\1\.liquidation_receiver==(\w+)\.key\(\)\}", e)
+    if m:
+        return ("receiverIs", m.group(2), m.group(3))
     return ("other", e)
 
 
@@ -314,6 +318,8 @@ def main():
                     cl.append("(.adminEq .f_%s .f_%s)" % (lean_ident(c[1]), lean_ident(c[2])))
                 elif c[0] == "venueFresh":
                     cl.append("(.venueFresh .f_%s)" % lean_ident(c[1]))
+                elif c[0] == "receiverIs":
+                    cl.append("(.receiverIs .f_%s .f_%s)" % (lean_ident(c[1]), lean_ident(c[2])))
                 else:
                     others.append((name, fname, c[1]))
                     cl.append("(.other %d)" % (len(others) - 1))
@@ -341,6 +347,7 @@ def main():
   | zeroWeightRecv (acct bank : F)
   | adminEq (group admin : F)
   | venueFresh (venue : F)
+  | receiverIs (record who : F)
   | other (n : Nat)
   deriving DecidableEq, Repr
 
